@@ -23,7 +23,7 @@ class ScenarioCap(Exception):
     """a learner's episode did not end within STEP_CAP steps (the scenario's result is then this exception, in every environment)"""
 
 
-def gen_scenario(rng, component=None):
+def gen_scenario(rng, component=None, kinds=('int', 'str', 'str', 'tuple', 'fd')):
     comp = component or rng.choice(COMPONENTS)
     seed = rng.choice(SEEDS)
     params = {}
@@ -31,7 +31,7 @@ def gen_scenario(rng, component=None):
         if rng.random() < 0.25:
             problem = dict(type='domain', name='GridWorldDet')
         else:
-            problem = dict(type='graph', spec=gen_graph_spec(rng), rep=rng.choice(('next_state', 'det', 'uniform', 'dsp')))
+            problem = dict(type='graph', spec=gen_graph_spec(rng, kinds=kinds), rep=rng.choice(('next_state', 'det', 'uniform', 'dsp')))
         params = dict(tie=rng.choice(('random', 'random', 'lifo')), rao=True)
         if comp == 'astar' and params['tie'] != 'random':
             params['rao'] = True
@@ -39,7 +39,7 @@ def gen_scenario(rng, component=None):
         if rng.random() < 0.35:
             problem = dict(type='domain', name=rng.choice(POMDP_DOMAINS))
         else:
-            problem = dict(type='pomdp', spec=gen_pomdp_spec(rng))
+            problem = dict(type='pomdp', spec=gen_pomdp_spec(rng, kinds=kinds))
         if comp == 'bpi':
             params = dict(nodes=rng.randint(1, 2), iterations=rng.randint(1, 4))
         elif comp == 'ga':
@@ -59,7 +59,7 @@ def gen_scenario(rng, component=None):
         else:
             uniform = comp == 'rmax'
             spec = gen_mdp_spec(rng, proper=True, uniform_actions=uniform, discounts=(0.5, 0.8, 0.9, 0.95), max_states=5,
-                                kinds=('int', 'str', 'str', 'tuple', 'fd'))
+                                kinds=kinds)
             problem = dict(type='mdp', spec=spec)
         if comp in ('qlearning', 'sarsa', 'expectedsarsa', 'doubleq'):
             params = dict(episodes=rng.randint(1, 4), rand_choose=rng.choice((0.1, 0.5)), step_size=0.5, softmax_temp=rng.choice((0.0, 1.0)))
@@ -72,7 +72,7 @@ def gen_scenario(rng, component=None):
         elif comp == 'semimdp':
             params = dict(nsim=rng.choice((2, 5)), optname=rng.choice(('o', 'go-left', 'opt_7')), max_steps=rng.choice((5, 50)), pseed=rng.randrange(10 ** 6))
         elif comp in ('rollout_mdp', 'evaluate_mdp'):
-            params = dict(cap=rng.choice((5, 20)), nsim=rng.choice((2, 4)), pseed=rng.randrange(10 ** 6))
+            params = dict(cap=rng.choice((5, 20)), nsim=rng.choice((2, 4)), pseed=rng.randrange(10 ** 6), tabular=rng.random() < 0.5)
     return dict(component=comp, problem=problem, params=params, seed=seed)
 
 
@@ -192,7 +192,7 @@ def _states(problem):
     return list(problem.state_list)
 
 
-def _rand_policy(problem, pseed):
+def _rand_policy(problem, pseed, tabular=False):
     from msdm.core.mdp import FunctionalPolicy
     from msdm.core.distributions import DictDistribution
     r = _pyrandom.Random(pseed)
@@ -208,7 +208,11 @@ def _rand_policy(problem, pseed):
     # tabulate in a canonical order so the table does not depend on visit order
     for s in sorted(problem.state_list, key=lambda x: str(canon(x))):
         f(s)
-    return FunctionalPolicy(f)
+    pol = FunctionalPolicy(f)
+    if tabular:
+        # the same policy as a TabularPolicy over the model's own state and action lists
+        pol = pol.to_tabular(problem.state_list, problem.action_list)
+    return pol
 
 
 def make_algo(sc, env):
@@ -388,12 +392,13 @@ def run_component(sc, problem, algo, env):
                 out.append(canon(d.condition(lambda e: e[1] != 1).sample()))
         return dict(ops=out)
     if comp == 'rollout_mdp':
-        pol = _rand_policy(problem, p['pseed'])
+        pol = _rand_policy(problem, p['pseed'], p.get('tabular', False))
         tr = pol.run_on(problem, max_steps=p['cap'], rng=env.rng_factory(seed))
         return dict(steps=[canon(dict(st)) for st in tr.steps])
     if comp == 'evaluate_mdp':
-        pol = _rand_policy(problem, p['pseed'])
-        ev = pol.evaluate_on(problem, n_simulations=p['nsim'], max_steps=p['cap'], rng=env.rng_factory(seed))
+        pol = _rand_policy(problem, p['pseed'], p.get('tabular', False))
+        from msdm.core.mdp.policy import Policy as _P
+        ev = _P.evaluate_on(pol, problem, n_simulations=p['nsim'], max_steps=p['cap'], rng=env.rng_factory(seed))
         return dict(initial_value=float(ev.initial_value), state_value=canon({s: float(v) for s, v in ev.state_value.items()}),
                     occupancy=canon({s: float(v) for s, v in ev.state_occupancy.items()}))
     if comp == 'rollout_pomdp':
